@@ -48,7 +48,9 @@ ASSUMPTIONS = [
 RULE = ('streams: exhaustive op sequences of exact depth 4 (quick) / 5 (thorough; 6 over a reduced alphabet) over '
         '{get_fdata(fill|unchanged,f4|f8), asarray(dataobj), dataobj[slice], uncache, edit-last, edit-array-0, '
         'get_data(fill), header scale edit on img.header / constructor header} x {array image int16/f4/f8, proxy '
-        'image from file (mmap), from .nii.gz, from BytesIO file_map, NIfTI pair file_map, hand-built ArrayProxy; scaled and unscaled}; random '
+        'image from file (mmap), from .nii.gz, from BytesIO file_map, NIfTI pair file_map, hand-built ArrayProxy; scaled and unscaled; '
+        'keep_file_open in {default,True,False} x mmap in {True,c,r,False} for the file-backed loaders (stream `io`: '
+        'exhaustive depth 3/4 for every pair; mmap=r on an unscaled plain file is oracle-only)}; random '
         'sequences up to depth 30 over the full alphabet incl. in_memory, get_data(unchanged), edit of any earlier '
         'array, header shape/dtype edits, bad caching / int dtype / zero-step slice. A case is non-trivial when it '
         'contains a data read; distinct by (image configuration, flavour, op sequence).')
@@ -69,20 +71,37 @@ def _tmpdir():
 
 # ------------------------------------------------------------------ cases
 
-def mk_case(kind, dt, scale, raw, ops, flavour, stream='main'):
+def _unscaled(scale):
+    return scale is None or tuple(scale) == (1, 0)
+
+
+def _ro_mmap(d):
+    """reads of an unscaled, uncompressed file through mmap='r' hand out read-only arrays; the Lean model has
+    no map mode, so these cases are oracle-only (the documented model in Python knows the rule)"""
+    return (d['kind'] == 'P' and d.get('flavour') == 'load' and d.get('mmap', True) == 'r'
+            and _unscaled(d.get('scale')))
+
+
+def mk_case(kind, dt, scale, raw, ops, flavour, stream='main', kfo=None, mmap=True):
+    """kfo / mmap: the `keep_file_open` / `mmap` arguments of nib.load / from_file_map (proxy images; the model
+    does not depend on them: uncached reads are fresh and reflect the file whatever the I/O strategy)."""
     sl, it = ('_', '_') if scale is None else (str(scale[0]), str(scale[1]))
     line = 'C13 run %s %s %s %s %s %s' % (kind, dt, sl, it, ','.join(map(str, raw)) if raw else '-',
                                           ';'.join(ops) if ops else '-')
     data = {'kind': kind, 'dt': dt, 'scale': list(scale) if scale is not None else None, 'raw': list(raw),
             'ops': list(ops), 'flavour': flavour, 'stream': stream}
+    if kind == 'P' and (kfo is not None or mmap is not True):
+        data['kfo'], data['mmap'] = kfo, mmap
+    if _ro_mmap(data):
+        line = None
     nontrivial = any(o[0] in 'gdas' for o in ops)
-    key = (kind, dt, sl, it, tuple(raw), flavour, tuple(ops)) if nontrivial else None
+    key = (kind, dt, sl, it, tuple(raw), flavour, data.get('kfo'), data.get('mmap', True), tuple(ops)) if nontrivial else None
     return Case(line, data, key, stream)
 
 
 def case_from_data(d):
     return mk_case(d['kind'], d['dt'], tuple(d['scale']) if d.get('scale') is not None else None, d['raw'], d['ops'],
-                   d.get('flavour', 'fmap'), d.get('stream', 'main'))
+                   d.get('flavour', 'fmap'), d.get('stream', 'main'), d.get('kfo'), d.get('mmap', True))
 
 
 # ------------------------------------------------------------------ implementation side
@@ -145,7 +164,11 @@ def build(d):
         img = nib.Nifti1Image(arr, None, hdr)
         return img, hdr, arr, (lambda: True), (lambda: None)
     b = _file_bytes(dt, scale, raw)
+    b0 = b
     fl = d.get('flavour', 'fmap')
+    kw = {}
+    if 'kfo' in d or 'mmap' in d:
+        kw = {'mmap': d.get('mmap', True), 'keep_file_open': d.get('kfo')}
     if fl in ('load', 'gz'):
         p = os.path.join(_tmpdir(), 'c%d_%d.nii%s' % (os.getpid(), next(_SEQ), '.gz' if fl == 'gz' else ''))
         if fl == 'gz':
@@ -153,20 +176,20 @@ def build(d):
             b = gzip.compress(b, 1, mtime=0)
         with open(p, 'wb') as f:
             f.write(b)
-        img = nib.load(p)
+        img = nib.load(p, **kw)
 
         def same():
             with open(p, 'rb') as f:
                 return f.read() == b
         orig = getattr(img, '_load_cache', {}).get('header')
         if orig is None:
-            orig = nib.Nifti1Header.from_fileobj(io.BytesIO(b))
+            orig = nib.Nifti1Header.from_fileobj(io.BytesIO(b0))
         return img, orig, None, same, (lambda: os.unlink(p))
     bio = io.BytesIO(b)
     if fl == 'fmap':
         fm = nib.Nifti1Image.make_file_map()
         fm['image'].fileobj = bio
-        img = nib.Nifti1Image.from_file_map(fm)
+        img = nib.Nifti1Image.from_file_map(fm, **kw)
         orig = getattr(img, '_load_cache', {}).get('header')
         if orig is None:
             orig = nib.Nifti1Header.from_fileobj(io.BytesIO(b))
@@ -179,14 +202,14 @@ def build(d):
         hio, bio = io.BytesIO(hb), io.BytesIO(ib)
         fm = nib.Nifti1Pair.make_file_map()
         fm['header'].fileobj, fm['image'].fileobj = hio, bio
-        img = nib.Nifti1Pair.from_file_map(fm)
+        img = nib.Nifti1Pair.from_file_map(fm, **kw)
         orig = getattr(img, '_load_cache', {}).get('header')
         if orig is None:
             orig = nib.nifti1.Nifti1PairHeader.from_fileobj(io.BytesIO(hb))
         return img, orig, None, (lambda: bio.getvalue() == ib and hio.getvalue() == hb), (lambda: None)
     elif fl == 'ctor':
         orig = nib.Nifti1Header.from_fileobj(io.BytesIO(b))
-        img = nib.Nifti1Image(ArrayProxy(bio, orig), None, orig)
+        img = nib.Nifti1Image(ArrayProxy(bio, orig, **kw), None, orig)
     else:
         raise ValueError(fl)
     return img, orig, None, (lambda: bio.getvalue() == b), (lambda: None)
@@ -300,6 +323,10 @@ class DocModel:
             slope, inter = scale if scale is not None else (1, 0)
             self.file = [v * slope + inter for v in d['raw']]        # frozen when the proxy is made
             self.unscaled = (slope, inter) == (1, 0)
+            # mmap='r' on an unscaled uncompressed file: the map itself is handed out, read-only, unless a
+            # dtype conversion made a copy
+            self.ro_map = _ro_mmap(d)
+            self.storage_dt = d['dt']
             self.file_dt = d['dt'] if self.unscaled else 'f8'
         self.cache = None          # get_fdata cache
         self.legacy = None         # get_data cache
@@ -318,7 +345,8 @@ class DocModel:
             if dt is None or dt == self.own[1]:
                 return self.own
             return self.new(dt, list(self.own[2]))
-        return self.new(dt or self.file_dt, list(self.file))
+        ro = getattr(self, 'ro_map', False) and (dt is None or dt == self.storage_dt)
+        return self.new(dt or self.file_dt, list(self.file), ro=ro)
 
     def in_memory(self):
         return self.own is not None or self.cache is not None or self.legacy is not None
@@ -355,7 +383,7 @@ class DocModel:
                 n = len(self.file)
                 full = sl == slice(None) or (sl.stop == n and sl.start in (None, 0) and sl.step in (None, 1))
                 # a part of an unscaled file comes back as a read-only buffer; nothing else is read-only
-                r = self.new(self.file_dt, list(self.file)[sl], ro=self.unscaled and not full)
+                r = self.new(self.file_dt, list(self.file)[sl], ro=(self.unscaled and not full) or (full and self.ro_map))
         elif op == 'u':
             self.cache = self.legacy = None
         elif op == 'm':
@@ -408,7 +436,8 @@ def oracle(case, out):
             return ('step %d (%s) of %s on %s image (%s, scale %s, flavour %s): documented model gives %s, '
                     'implementation gives %s  [id:dtype:values:writeable:in_memory]'
                     % (i, d['ops'][i], ';'.join(d['ops']), 'array' if d['kind'] == 'A' else 'proxy', d['dt'],
-                       d.get('scale'), d.get('flavour'), e, g))
+                       d.get('scale'), '%s%s' % (d.get('flavour'), (' keep_file_open=%r mmap=%r' % (d.get('kfo'), d.get('mmap', True)))
+                                                  if ('kfo' in d or 'mmap' in d) else ''), e, g))
     return None
 
 
@@ -449,12 +478,18 @@ def shrink_candidates(case):
     d = case.data
     ops = d['ops']
     scale = tuple(d['scale']) if d.get('scale') is not None else None
+    kfo, mm = d.get('kfo'), d.get('mmap', True)
     for i in range(len(ops)):
-        yield mk_case(d['kind'], d['dt'], scale, d['raw'], ops[:i] + ops[i + 1:], d.get('flavour'), d.get('stream'))
+        yield mk_case(d['kind'], d['dt'], scale, d['raw'], ops[:i] + ops[i + 1:], d.get('flavour'), d.get('stream'),
+                      kfo, mm)
     if len(d['raw']) > 2:
-        yield mk_case(d['kind'], d['dt'], scale, d['raw'][:2], ops, d.get('flavour'), d.get('stream'))
+        yield mk_case(d['kind'], d['dt'], scale, d['raw'][:2], ops, d.get('flavour'), d.get('stream'), kfo, mm)
+    if kfo is not None or mm is not True:
+        yield mk_case(d['kind'], d['dt'], scale, d['raw'], ops, d.get('flavour'), d.get('stream'))
+        yield mk_case(d['kind'], d['dt'], scale, d['raw'], ops, d.get('flavour'), d.get('stream'), None, mm)
+        yield mk_case(d['kind'], d['dt'], scale, d['raw'], ops, d.get('flavour'), d.get('stream'), kfo, True)
     if d.get('flavour') in ('load', 'ctor', 'gz', 'pair'):
-        yield mk_case(d['kind'], d['dt'], scale, d['raw'], ops, 'fmap', d.get('stream'))
+        yield mk_case(d['kind'], d['dt'], scale, d['raw'], ops, 'fmap', d.get('stream'), kfo, mm)
 
 
 # ------------------------------------------------------------------ generators
@@ -481,6 +516,19 @@ MORE_CONFIGS = [
     ('A', 'i2', None, (-1, 0, 1, 2), 'array'),
     ('A', 'f8', (3, 5), (7,), 'array'),
 ]
+
+KFO = [None, True, False]
+MMAP = [True, 'c', 'r', False]
+# file-backed proxy configurations crossed with every (keep_file_open, mmap) pair in the `io` stream
+IO_CONFIGS = [
+    ('P', 'f4', (1, 0), (3, 4, 5), 'load'),
+    ('P', 'i2', None, (3, 4), 'load'),
+    ('P', 'i2', (2, 1), (3, 4, 5), 'load'),
+    ('P', 'f8', (1, 0), (3, 4), 'gz'),
+    ('P', 'i2', (3, -2), (3, 4), 'gz'),
+]
+IO_ALPHA = ['gf4', 'gf8', 'gu4', 'gu8', 'a', 'u', 'el', 'e0', 's_,_,_', 's1,_,_', 'df']
+IO_ALPHA4 = ['gf4', 'gf8', 'gu8', 'a', 'u', 'el', 's_,_,_', 'df']
 
 CORE = ['gf4', 'gf8', 'gu4', 'gu8', 'a', 'u', 'el']
 EXH_A = CORE + ['df', 'e0']
@@ -550,6 +598,18 @@ def cases(rng, tier):
         alpha = EXH_A if kind == 'A' else EXH_P
         for ops in itertools.product(alpha, repeat=depth):
             out.append(mk_case(kind, dt, scale, raw, ops, fl, 'exhaustive'))
+    # the I/O strategy of the proxy (keep_file_open x mmap) must not matter: exhaustive short sequences for every
+    # pair, plus full depth with the file handle kept open over a memory map
+    iodepth = {'quick': 3, 'thorough': 4, 'search': 3}[tier]
+    for (kind, dt, scale, raw, fl) in IO_CONFIGS:
+        for kfo in KFO:
+            for mm in MMAP:
+                if kfo is None and mm is True:
+                    continue
+                for ops in itertools.product(IO_ALPHA if iodepth == 3 else IO_ALPHA4, repeat=iodepth):
+                    out.append(mk_case(kind, dt, scale, raw, ops, fl, 'io', kfo, mm))
+    for ops in itertools.product(EXH_P, repeat=depth):
+        out.append(mk_case('P', 'i2', None, (3, 4, 5), ops, 'load', 'exhaustive-kfo', True, True))
     if tier == 'thorough':
         for (kind, dt, scale, raw, fl) in (CONFIGS[0], CONFIGS[2], CONFIGS[3], CONFIGS[4]):
             alpha = CORE if kind == 'A' else CORE[:6] + ['s1,_,_']
@@ -584,6 +644,9 @@ def cases(rng, tier):
             if o[0] in 'gdas':
                 seen += 1
             ops.append(o)
-        out.append(mk_case(kind, dt, scale, raw, ops, fl, 'random'))
+        kfo, mm = None, True
+        if kind == 'P' and rng.random() < 0.6:
+            kfo, mm = rng.choice(KFO), rng.choice(MMAP)
+        out.append(mk_case(kind, dt, scale, raw, ops, fl, 'random', kfo, mm))
     _parallel_impl(out)
     return out
